@@ -207,7 +207,10 @@ def run(ctx):
     check_local_memos(ctx, "R3", list(pkg), "package functions")
 
     # ------------------------------------------------------------------ R4 / R5
-    ctx.rule("R4", "no ambient inputs reachable from the API", "output depends on clock, RNG, environment or object identity")
+    ctx.rule("R4", "no ambient inputs reachable from the API", "output depends on clock, RNG, environment, object identity or the hash seed")
+    from .setorder import check_set_order
+
+    check_set_order(ctx, "R4", list(pkg), "package functions")
     ctx.rule("R5", "no process-global setters reachable from the API", "a call changes interpreter-wide behaviour for later calls")
     roots = [prog.func(f"iodata.api.{n}") for n in ("load_one", "load_many", "dump_one", "dump_many", "write_input")]
     reach = prog.callees_closure(roots)
